@@ -236,6 +236,8 @@ func main() {
 			for k, v := range counters.Snapshot() {
 				m[k] = v
 			}
+			ty, pr, tr := cfgcorpus.AdjacencyCoverage()
+			m["base_token_types"], m["base_adjacent_type_pairs"], m["base_adjacent_type_triples"] = ty, pr, tr
 			return m
 		},
 		QuickBudget:    4 * 60e9,
